@@ -236,6 +236,35 @@ func (h *VerifHarness) Reattach(src, srcPath, psid, psdir string, mroPaths []str
 	return nil
 }
 
+// RetryRestart does what cmd/mrp attemptRetry + pipestanceHolder.restart do
+// once a failure has been judged transient: look for further failures, give
+// up the lock, re-attach, reset the failed stages and reload the metadata.
+// It returns false (and changes nothing) when the failure is not transient.
+func (h *VerifHarness) RetryRestart() (bool, error) {
+	ctx := context.Background()
+	if can, _ := h.Ps.IsErrorTransient(); !can {
+		return false, nil
+	}
+	h.Ps.RefreshState(ctx)
+	h.Ps.CheckHeartbeats(ctx)
+	if can, _ := h.Ps.IsErrorTransient(); !can {
+		return false, nil
+	}
+	h.Ps.Unlock()
+	ps, err := h.Rt.ReattachToPipestance(h.psid, h.psdir, h.src, h.srcPath, h.mroPaths,
+		"verif", nil, true, false, ctx)
+	if err != nil {
+		return true, err
+	}
+	h.Ps = ps
+	if err := ps.Reset(); err != nil {
+		ps.Unlock()
+		return true, err
+	}
+	ps.LoadMetadata(ctx)
+	return true, nil
+}
+
 // LoopBody is one iteration of mrp's run loop without the terminal actions.
 func (h *VerifHarness) LoopBody() (MetadataState, bool) {
 	h.Iter++
